@@ -1,0 +1,48 @@
+//go:build verif
+
+// Machine-checked contracts for package dispatch (comment-only; read by /verif/govc).
+// Property C18: idle timeouts follow real activity.
+
+package dispatch
+
+// ---- access watcher ------------------------------------------------------------------------
+
+//@ lockinv torrentAccessWatcher.mu self w guards lastWrite, lastRead
+//@   invariant trivial: true
+
+// A piece reader that was closed successfully counts as a read at the clock's current reading;
+// a failed Close leaves the last read time alone.
+//@ func pieceReaderCloseWatcher.Close
+//@   requires w != nil && w.w != nil
+//@   modifies w.w.lastRead, w.w.clk.now
+//@   ensures touched_on_success: result == nil ==> w.w.lastRead == w.w.clk.now
+//@   ensures untouched_on_error: result != nil ==> w.w.lastRead == old(w.w.lastRead)
+
+// A successfully written piece counts as a write now; a failed write does not.
+//@ func torrentAccessWatcher.WritePiece
+//@   requires w != nil
+//@   modifies w.lastWrite, w.clk.now
+//@   ensures touched_on_success: result == nil ==> w.lastWrite == w.clk.now
+//@   ensures untouched_on_error: result != nil ==> w.lastWrite == old(w.lastWrite)
+
+// ---- what the scheduler observes of a dispatcher (assumed interface) --------------------------
+// done: the last value Complete() returned (completion is monotone); obsRead / obsWrite: the last
+// values LastReadTime() / LastWriteTime() returned.
+//@ ghost field Dispatcher.done bool
+//@ ghost field Dispatcher.obsRead time.Time
+//@ ghost field Dispatcher.obsWrite time.Time
+
+//@ func Dispatcher.Complete
+//@   trusted
+//@   modifies d.done
+//@   ensures result == d.done && (old(d.done) ==> d.done)
+
+//@ func Dispatcher.LastReadTime
+//@   trusted
+//@   modifies d.obsRead
+//@   ensures result == d.obsRead
+
+//@ func Dispatcher.LastWriteTime
+//@   trusted
+//@   modifies d.obsWrite
+//@   ensures result == d.obsWrite
